@@ -21,7 +21,7 @@ Print Assumptions C06_verdict_consistent.
 (* Network.is_valid as read off network.py on every run (translator/facts.py): nine reporting sites, each followed by
    the raise under `raises`, no other raise, verdict = `not msgs` *)
 From SM.specs Require Import SourceFacts_spec.
-From SM.proofs Require Import SourceFacts.
+From SM.proofs Require Import SourceFactsValid.
 Theorem C06_validation_reports_and_raises_together : validation_reports_and_raises_together.
 Proof. exact validation_reports_and_raises_together_proof. Qed.
 Print Assumptions C06_validation_reports_and_raises_together.
